@@ -157,6 +157,13 @@ class Interp:
     def __init__(self, fns, models=None):
         self.fns = fns
         self.models = models or {}
+    def outcomes(self, key, args, mem=None):
+        """nondeterministic evaluation: unknown values (captured state) make every branch that tests them feasible;
+        returns the list of values the body can return (one per explored path)."""
+        self.nondet = True
+        results = []
+        self._exec(self.fns[key], 0, {i + 1: a for i, a in enumerate(args)}, {k: list(v) for k, v in (mem or {}).items()}, BF.const(1), results, 0)
+        return [r for pc, r, m in results]
     def run(self, key, args, mem):
         """args: list of values; mem: dict arr-> list of BV bytes. returns (ret BV/BF, mem) merged over paths"""
         f = self.fns[key]
@@ -213,8 +220,12 @@ class Interp:
             mem[v.arr][v.idx] = val; return
         if isinstance(v, Tup) and pl["proj"][-1]["k"] == "field":
             v.items[pl["proj"][-1]["i"]] = val; return
+        if getattr(self, "nondet", False) and (v is None or isinstance(v, str)): return   # a store into unknown state
         raise Undecided("write " + json.dumps(pl)[:100])
     def binop(self, op, a, b):
+        if getattr(self, "nondet", False) and (a is None or b is None):
+            # unknown state (captured variables of a stateful closure): the result is unknown, every branch on it is explored
+            return Tup([None, None]) if "WithOverflow" in op else None
         if op in ("BitAnd", "BitOr", "BitXor"):
             if isinstance(a, BF): return {"BitAnd": a & b, "BitOr": a | b, "BitXor": a ^ b}[op]
             return BV([{"BitAnd": x & y, "BitOr": x | y, "BitXor": x ^ y}[op] for x, y in zip(a.bits, b.bits)])
@@ -251,7 +262,8 @@ class Interp:
             elif k == "binop": val = self.binop(rv["op"], self.operand(rv["l"], env, mem), self.operand(rv["r"], env, mem))
             elif k == "unop":
                 x = self.operand(rv["x"], env, mem)
-                if rv["op"] == "Not": val = ~x if isinstance(x, BF) else BV([~q for q in x.bits])
+                if x is None and getattr(self, "nondet", False): val = None
+                elif rv["op"] == "Not": val = ~x if isinstance(x, BF) else BV([~q for q in x.bits])
                 elif rv["op"] == "PtrMetadata" and isinstance(x, View): val = BV.const(1 << 20, 64)   # length of a buffer view: "long enough" (bounds checks are not E3's business)
             elif k == "cast":
                 x = self.operand(rv["x"], env, mem)
@@ -280,6 +292,10 @@ class Interp:
         if k == "drop": return self._exec(f, t["target"], env, mem, pc, results, depth)
         if k == "switch":
             d = self.operand(t["discr"], env, mem)
+            if d is None and getattr(self, "nondet", False):
+                for tb in sorted(set([tb for _, tb in t["targets"]] + [t["otherwise"]])):
+                    self._exec(f, tb, dict(env), {k2: list(v) for k2, v in mem.items()}, pc, results, depth)
+                return
             rest = BF.const(1)
             for val, tb in t["targets"]:
                 c = (d if val else ~d) if isinstance(d, BF) else self.binop("Eq", d, BV.const(val, d.w))
@@ -354,6 +370,14 @@ class Interp:
                     cnd = e_.cond if e_.a.vi == good else ~e_.cond
                     val_ = ga.items[0]
                     r = bv_ite(cnd, val_, _dflt(val_)) if isinstance(val_, BV) else ite(cnd, val_, _dflt(val_))
+            elif path in ("std::option::Option::<T>::is_some", "std::option::Option::<T>::is_none", "std::result::Result::<T, E>::is_ok", "std::result::Result::<T, E>::is_err") \
+                    and (isinstance(args[0], (EnumV, EnumS)) or args[0] == "SELF.ext_flags"):
+                e_ = args[0]
+                if e_ == "SELF.ext_flags":
+                    e_ = EnumS(BF.var("E"), EnumV("std::option::Option", 1, [BV([BF.var(f"e{i}") for i in range(16)])]), EnumV("std::option::Option", 0, []))
+                good = 0 if path.startswith("std::result") else 1
+                isgood = (BF.const(1 if e_.vi == good else 0) if isinstance(e_, EnumV) else (e_.cond if e_.a.vi == good else ~e_.cond))
+                r = isgood if path.rsplit("::", 1)[-1] in ("is_some", "is_ok") else ~isgood
             elif path.startswith("core::num::<impl u") and path.rsplit("::", 1)[-1] in ("wrapping_sub", "wrapping_add") and isinstance(args[0], BV) and isinstance(args[1], BV):
                 r = self.binop("Sub" if path.endswith("wrapping_sub") else "Add", args[0], args[1])
             elif path == "core::num::<impl u8>::eq_ignore_ascii_case" and len(args) == 2:
